@@ -682,18 +682,19 @@ private theorem singleton_step (c : Cfg) (s : St) (o : Op) (hI : Inv c s) (ho : 
 /-- **`keep_alive_max_h2` as a count, `_partial`**: when every read carries at most one HEADERS frame, at most
     `keep_alive_max_requests + 1` client requests are served on a connection, for every limit (0 included), any number
     of pushes and stream completions in between -/
-theorem keep_alive_max_h2_count_partial (c : Cfg) (ops : List Op) (hs : Singleton ops) : ServedAtMost c ops := by
-  have key : ∀ (ops : List Op) (s : St), Inv c s → (∀ o ∈ ops, ∀ fs, o = Op.read fs → fs.length ≤ 1) →
-      (s.lib.closed = false → s.served.length ≤ c.keepAliveMax) → s.served.length ≤ c.keepAliveMax + 1 →
-      (run c s ops).served.length ≤ c.keepAliveMax + 1 := by
-    intro ops
-    induction ops with
-    | nil => intro s _ _ _ h; exact h
-    | cons o os ih =>
-      intro s hI ho h1 h2
-      obtain ⟨a, b⟩ := singleton_step c s o hI (ho o (by simp)) h1 h2
-      exact ih _ (inv_step c s o hI) (fun o' ho' => ho o' (by simp [ho'])) a b
-  exact key ops {} (inv_init c) hs (by simp) (by simp)
+private theorem count_from (c : Cfg) : ∀ (ops : List Op) (s : St), Inv c s → (∀ o ∈ ops, ∀ fs, o = Op.read fs → fs.length ≤ 1) →
+    (s.lib.closed = false → s.served.length ≤ c.keepAliveMax) → s.served.length ≤ c.keepAliveMax + 1 →
+    (run c s ops).served.length ≤ c.keepAliveMax + 1 := by
+  intro ops
+  induction ops with
+  | nil => intro s _ _ _ h; exact h
+  | cons o os ih =>
+    intro s hI ho h1 h2
+    obtain ⟨a, b⟩ := singleton_step c s o hI (ho o (by simp)) h1 h2
+    exact ih _ (inv_step c s o hI) (fun o' ho' => ho o' (by simp [ho'])) a b
+
+theorem keep_alive_max_h2_count_partial (c : Cfg) (ops : List Op) (hs : Singleton ops) : ServedAtMost c ops :=
+  count_from c ops {} (inv_init c) hs (by simp) (by simp)
 
 def frame (sid : Nat) : Frame := { sid := sid, fields := [(7, 3)] }
 
@@ -734,6 +735,77 @@ example : let c : Cfg := { keepAliveMax := 1000, maxStreams := 100, maxHeaderLis
     (run c {} [.read [{ sid := 1, fields := [(5, 931), (0, 0)] }]]).served = [1] ∧
     (run c {} [.read [{ sid := 1, fields := [(5, 932), (0, 0)] }]]).served = [] ∧
     (run c {} [.read [{ sid := 1, fields := [(5, 932), (0, 0)] }]]).goaways = [(0, 11)] := by decide
+
+/-! ### the response of the request that trips the limit (F48), and the `Upgrade: h2c` opening (F112) -/
+
+/-- a request served below the limit can still be answered when the read has been handled -/
+theorem response_below_max_deliverable (c : Cfg) (s : St) (f : Frame) (hu : s.upClosed = false) (hc : s.lib.closed = false)
+    (hnew : s.lib.highest < f.sid) (hodd : f.sid % 2 = 1) (hroom : s.lib.opened.length + 1 ≤ c.maxStreams)
+    (hfit : listSize f.fields ≤ c.maxHeaderList) (h : s.kar + 1 ≤ c.keepAliveMax) :
+    responseDeliverable (step c s (.read [f])) f.sid = true := by
+  obtain ⟨h1, _, h3⟩ := keep_alive_max_h2 c s f hu hc hnew hodd hroom hfit
+  simp [responseDeliverable, h1, (h3 h).2]
+
+/-- **F48, as the code is**: the request that trips `keep_alive_max_requests` is served - an application instance runs
+    for it and the GOAWAY names its stream, so the client will not retry it - but from the moment the comparison has
+    run (`close_connection()`: h2's state machine is CLOSED) its response can never be handed to the client, whatever
+    happens afterwards; for every limit, every state in which the request is acceptable and every continuation -/
+theorem response_at_max_lost (c : Cfg) (s : St) (f : Frame) (hu : s.upClosed = false) (hc : s.lib.closed = false)
+    (hnew : s.lib.highest < f.sid) (hodd : f.sid % 2 = 1) (hroom : s.lib.opened.length + 1 ≤ c.maxStreams)
+    (hfit : listSize f.fields ≤ c.maxHeaderList) (h : c.keepAliveMax < s.kar + 1) (ops : List Op) :
+    f.sid ∈ (run c (step c s (.read [f])) ops).served ∧
+    (f.sid, NO_ERROR) ∈ (step c s (.read [f])).goaways ∧
+    responseDeliverable (run c (step c s (.read [f])) ops) f.sid = false := by
+  obtain ⟨h1, h2, _⟩ := keep_alive_max_h2 c s f hu hc hnew hodd hroom hfit
+  obtain ⟨g, cl⟩ := h2 h
+  obtain ⟨a, _, b⟩ := nothing_served_after_goaway c ops _ cl
+  refine ⟨by rw [a, h1]; simp, by rw [g]; simp, by simp [responseDeliverable, b]⟩
+
+/-- what the statement asks: every served request can be answered (at the end of the run the connection is still one
+    its response can be sent on) -/
+def ServedAreAnswerable (c : Cfg) (ops : List Op) : Prop :=
+  ∀ sid ∈ (run c {} ops).served, responseDeliverable (run c {} ops) sid = true
+
+/-- `_partial`: true of every run in which the request maximum (or any other connection error) has not been reached -/
+theorem served_answerable_partial (c : Cfg) (ops : List Op) (h : (run c {} ops).lib.closed = false) : ServedAreAnswerable c ops := by
+  intro sid hs
+  simp [responseDeliverable, h, hs]
+
+/-- … and false as the code is (known finding F48): limit 0, one request - served, GOAWAY(1), no response possible -/
+theorem served_answerable_fails_as_is : ¬ ∀ (c : Cfg) (ops : List Op), ServedAreAnswerable c ops := by
+  intro h
+  have := h { keepAliveMax := 0, maxStreams := 100, maxHeaderList := 65536 } [.read [frame 1]] 1 (by decide)
+  revert this
+  decide
+
+/-- the count on a connection opened by `Upgrade: h2c` (the HTTP/1.1 request is served on stream 1 by `initiate`) -/
+def ServedAtMostH2c (c : Cfg) (ops : List Op) : Prop := (run c (afterUpgrade c) ops).served.length ≤ c.keepAliveMax + 1
+
+theorem inv_afterUpgrade (c : Cfg) (hm : 1 ≤ c.maxStreams) : Inv c (afterUpgrade c) := by
+  refine ⟨?_, ?_, ?_, ?_, ?_⟩ <;>
+    simp [afterUpgrade, Limits.h2InitiateCompares, Limits.h2CounterInit, Limits.h2IncrCreateStream] <;> omega
+
+/-- **`keep_alive_max_h2c`, `_partial`**: for every limit of at least 1 an `Upgrade: h2c` connection serves at most
+    `keep_alive_max_requests + 1` requests, the upgrade request included (reads carrying at most one HEADERS frame) -/
+theorem keep_alive_max_h2c_count_partial (c : Cfg) (ops : List Op) (hs : Singleton ops) (hk : 1 ≤ c.keepAliveMax)
+    (hm : 1 ≤ c.maxStreams) : ServedAtMostH2c c ops := by
+  refine count_from c ops (afterUpgrade c) (inv_afterUpgrade c hm) hs ?_ ?_ <;>
+    simp [afterUpgrade, Limits.h2InitiateCompares] <;> omega
+
+/-- … and **it fails for limit 0 as the code is** (known finding F112): `initiate` does not compare the counter, so
+    the upgrade request is served, and the next request is served too before the comparison runs: two instead of one -/
+theorem keep_alive_max_h2c_count_fails_as_is : ¬ ∀ (c : Cfg) (ops : List Op), Singleton ops → ServedAtMostH2c c ops := by
+  intro h
+  have := h { keepAliveMax := 0, maxStreams := 100, maxHeaderList := 65536 } [.read [frame 3]]
+    (by intro o ho fs hfs; simp at ho; subst ho; cases hfs; simp)
+  unfold ServedAtMostH2c at this
+  revert this
+  decide
+
+-- non-vacuity: limit 1 over h2c: the upgrade request and one more are served, the GOAWAY names stream 3, whose response is lost
+example : let c : Cfg := { keepAliveMax := 1, maxStreams := 100, maxHeaderList := 65536 }
+    let s := run c (afterUpgrade c) [.read [frame 3], .read [frame 5]]
+    s.served = [1, 3] ∧ s.goaways = [(3, 0), (3, 1)] ∧ responseDeliverable s 3 = false := by decide
 
 end h2
 
